@@ -10,7 +10,7 @@ Line protocol of the C11 driver.
   script    := v0 list<genframe>
   retis    ens0 ens1 list<frame> list<frame> script script xi
   quantis  ens0 ens1 list<frame> list<frame> script script script script acceptAll beta0 beta1 xi p
-  retisdet a n ens0 ens1 list<frame> list<frame> xi       (double-well leap-frog engine, op = x)
+  retisdet a k n ens0 ens1 list<frame> list<frame> xi       (double-well leap-frog engine, op = x)
 answer:
   accept status st0 st1 w0 w1 draws expArg | list<frame> | list<frame> | list<req>
   or err:<kind>
@@ -98,9 +98,9 @@ def handle (toks : List String) : String :=
         | none => "bad-op"
       | none => "bad-op"
     | none => "bad-op"
-  | "retisdet" :: a :: n :: rest =>
-    match parseInt? a, parseNat? n, takeEns rest with
-    | some a, some n, some (e0, rest) =>
+  | "retisdet" :: a :: k :: n :: rest =>
+    match parseInt? a, parseInt? k, parseNat? n, takeEns rest with
+    | some a, some k, some n, some (e0, rest) =>
       match takeEns rest with
       | some (e1, rest) =>
         match takeList parseFrame? rest with
@@ -108,12 +108,12 @@ def handle (toks : List String) : String :=
           match takeList parseFrame? rest with
           | some (old1, [xi]) =>
             match parseRat? xi with
-            | some xi => showRes (retisSwapZeroDet (dwStep a) (·.x) (fun _ => some 0) n e0 e1 old0 old1 xi)
+            | some xi => showRes (retisSwapZeroDet (dwStep a k) (·.x) (fun _ => some 0) n e0 e1 old0 old1 xi)
             | none => "bad-op"
           | _ => "bad-op"
         | none => "bad-op"
       | none => "bad-op"
-    | _, _, _ => "bad-op"
+    | _, _, _, _ => "bad-op"
   | "quantis" :: rest =>
     match takeEns rest with
     | some (e0, rest) =>
